@@ -759,8 +759,15 @@ impl<'de> serde::de::Visitor<'de> for LocaleSeed<'_> {
                 in_range: false,
                 foreign_keys_paths: self.foreign_keys_paths,
             })?;
+            if keys.insert(locale_key, value).is_some() {
+                // two members of the same object resolve to the same key (same name, or names that only differ
+                // by surrounding whitespaces): keeping one of them would make the result depend on the members order.
+                return Err(serde::de::Error::custom(Error::DuplicateKey {
+                    locale: self.top_locale_name.clone(),
+                    key_path: std::mem::take(&mut self.key_path),
+                }));
+            }
             self.key_path.pop_key();
-            keys.insert(locale_key, value);
         }
 
         Ok(keys)
